@@ -5,8 +5,9 @@
 Require Import Cherab.Common.Qx.
 Require Import Cherab.Model.C13_Wrappers Cherab.Model.C13_Float.
 Require Import Cherab.Proofs.C13_Routing Cherab.Proofs.C13_Periodic Cherab.Proofs.C13_Samplers
-               Cherab.Proofs.C13_Polygon Cherab.Proofs.C13_Cylindrical.
-From Coq Require Import Qabs PrimFloat.
+               Cherab.Proofs.C13_Polygon Cherab.Proofs.C13_Cylindrical Cherab.Proofs.C13_Triangle Cherab.Proofs.C13_Table.
+Require Import Cherab.Model.C13_Table.
+From Coq Require Import Qabs PrimFloat String.
 Open Scope Q_scope.
 
 (* iso-mapping g(f(x)): every carrier, every pair of functions, every argument *)
@@ -117,6 +118,47 @@ Theorem C13_periodic_rounded_algorithm_in_period_partial :
 Proof. exact remainder_rounded_range. Qed.
 Print Assumptions C13_periodic_rounded_algorithm_in_period_partial.
 
+(* PARTIAL, strictly narrower gap than the theorem above: the rounding is no longer assumed monotone; it is only
+   assumed to be ROUND-TO-NEAREST BY DEFINITION (rnd q is no farther from q than any representable number, any
+   tie-breaking), with 0 and the period representable.  What remains unproved is exactly: (i) PrimFloat.add returns
+   a nearest representable number of the exact sum (the IEEE-754 definition of the operation; Coq states it as
+   FloatAxioms.add_spec over SpecFloat.binary_round, and deriving nearestness from binary_round needs Flocq's
+   rounding theory, which is not available here), (ii) next_down p lies in [0, p) for finite p > 0. *)
+Theorem C13_periodic_nearest_rounding_in_period_partial :
+  forall (repr : Q -> Prop) (rnd : Q -> Q),
+  (forall q f, repr f -> Qabs (rnd q - q) <= Qabs (f - q)) ->
+  forall p pred_p, 0 < p -> repr 0 -> repr p -> 0 <= pred_p /\ pred_p < p ->
+  forall x, 0 <= remainder_rounded rnd pred_p x p /\ remainder_rounded rnd pred_p x p < p.
+Proof. exact remainder_nearest_range. Qed.
+Print Assumptions C13_periodic_nearest_rounding_in_period_partial.
+
+(* how far the rounded algorithm can be from the exact reduction x - p floor(x/p) (the 2^-52 p tolerance of the tie is this
+   bound on binary64): with round-to-nearest over a set containing the predecessor of p, the returned value either IS the
+   exact reduction (no rounding happened), or differs from it by at most the rounding error of the one sum, or - when the
+   correction of 0cf4f10 applies - by at most the distance from p to its predecessor *)
+Theorem C13_periodic_rounded_algorithm_close_to_exact :
+  forall (repr : Q -> Prop) (rnd : Q -> Q), (forall q f, repr f -> Qabs (rnd q - q) <= Qabs (f - q)) ->
+  forall p pred_p, 0 < p -> repr pred_p -> 0 <= pred_p /\ pred_p < p ->
+  forall x, let s := fmod_Q x p + p in
+  remainder_rounded rnd pred_p x p == remainder_Q x p
+  \/ (s == remainder_Q x p /\
+      (Qabs (remainder_rounded rnd pred_p x p - s) <= Qabs (rnd s - s)
+       \/ Qabs (remainder_rounded rnd pred_p x p - s) <= p - pred_p)).
+Proof. exact remainder_nearest_close. Qed.
+Print Assumptions C13_periodic_rounded_algorithm_close_to_exact.
+
+(* the integer core of the binary64 model of C fmod (Model/C13_Float.v fmod_int, used by fmod_F and hence by
+   remainder_F): for all mantissas and exponents the pair (r, e) it returns is the EXACT truncated remainder of
+   the magnitudes, r 2^e = fmod(mx 2^ex, mp 2^ep), with 0 <= r 2^e < mp 2^ep and r 2^e <= mx 2^ex (so it fits the
+   format and the final conversion is exact) *)
+Theorem C13_periodic_binary64_fmod_core_exact :
+  forall mx ex mp ep,
+  let '(r, e) := fmod_int mx ex mp ep in
+  inject_Z r * pow2 e == fmod_Q (mag mx ex) (mag mp ep)
+  /\ (0 <= r)%Z /\ inject_Z r * pow2 e < mag mp ep /\ inject_Z r * pow2 e <= mag mx ex.
+Proof. exact fmod_int_exact. Qed.
+Print Assumptions C13_periodic_binary64_fmod_core_exact.
+
 (* binary64, all pairs of doubles, no floating-point axioms: whenever the algorithm takes the "+ period" branch
    the value handed to the wrapped function is not the period itself (given that stepping from the period
    towards zero moves, as it does for every finite non-zero double) - the content of the fix 0cf4f10 *)
@@ -220,10 +262,24 @@ Proof.
 Qed.
 Print Assumptions C13_vectors_on_axis_and_everywhere.
 
+(* which constructor / range arguments are accepted, exactly (the policy the correspondence compares with the
+   exceptions the real constructors raise): sample ranges, 1-D and n-D periods, slice axis selectors *)
+Theorem C13_validation_policies_exact :
+  (forall len a b n, range_validate len a b n = None <-> (len = 3%Z /\ a <= b /\ (1 <= n)%Z))
+  /\ (forall p, period1_validate p = None <-> 0 < p)
+  /\ (forall ps, periodn_validate ps = None <-> Forall (fun p => 0 <= p) ps)
+  /\ (forall dims z k, slice_validate dims (AxNum z) = inr k <-> (k = z /\ (0 <= z < dims)%Z))
+  /\ (forall dims s k, slice_validate dims (AxName s) = inr k <-> axis_of_name dims s = Some k).
+Proof.
+  split; [exact range_validate_spec |]. split; [exact period1_validate_spec |]. split; [exact periodn_validate_spec |].
+  split; [exact slice_validate_num_spec | exact slice_validate_name_spec].
+Qed.
+Print Assumptions C13_validation_policies_exact.
+
 (* sample axes: n points, the i-th is a + i (b - a)/(n - 1): first a, last b, equal spacing; one point a for n = 1 *)
 Theorem C13_linspace_even_with_both_end_points :
   forall n a b, (1 <= n)%Z ->
-  length (linspace n a b) = Z.to_nat n
+  List.length (linspace n a b) = Z.to_nat n
   /\ (forall i, (0 <= i < n)%Z -> nth_error (linspace n a b) (Z.to_nat i) = Some (linspace_at n a b i))
   /\ linspace_at n a b 0 == a
   /\ ((1 < n)%Z -> linspace_at n a b (n - 1) = b)
@@ -251,8 +307,8 @@ Theorem C13_sampler_entry_is_function_at_grid_point :
   (forall i j k x y z, nth_error xs i = Some x -> nth_error ys j = Some y -> nth_error zs k = Some z ->
      exists plane row, nth_error (sample3d f xs ys zs) i = Some plane /\ nth_error plane j = Some row
                        /\ nth_error row k = Some (f x y z))
-  /\ length (sample3d f xs ys zs) = length xs
-  /\ Forall (fun plane => length plane = length ys /\ Forall (fun row => length row = length zs) plane) (sample3d f xs ys zs)
+  /\ List.length (sample3d f xs ys zs) = List.length xs
+  /\ Forall (fun plane => List.length plane = List.length ys /\ Forall (fun row => List.length row = List.length zs) plane) (sample3d f xs ys zs)
   /\ (forall (g : Q -> Q -> Q -> B) nx ax bx ny ay by_ nz az bz i j k,
         (0 <= i < nx)%Z -> (0 <= j < ny)%Z -> (0 <= k < nz)%Z ->
         exists plane row,
@@ -267,6 +323,40 @@ Proof.
   - intros; apply sample3d_on_linspace; assumption.
 Qed.
 Print Assumptions C13_sampler_entry_is_function_at_grid_point.
+
+(* the remaining sampler entry points: _points variants (v[i] = f(points[i]), same length) and the 1-D / 2-D
+   samplers on evenly spaced ranges, for every size *)
+Theorem C13_point_and_lower_dimensional_samplers :
+  forall (A B : Type) (f3 : A -> A -> A -> B) (f2 : A -> A -> B) (f1 : A -> B),
+  (forall pts i x y z, nth_error pts i = Some (x, y, z) -> nth_error (sample3d_points f3 pts) i = Some (f3 x y z))
+  /\ (forall pts i x y, nth_error pts i = Some (x, y) -> nth_error (sample2d_points f2 pts) i = Some (f2 x y))
+  /\ (forall p3 p2, List.length (sample3d_points f3 p3) = List.length p3 /\ List.length (sample2d_points f2 p2) = List.length p2)
+  /\ (forall xs i x, nth_error xs i = Some x -> nth_error (sample1d f1 xs) i = Some (f1 x))
+  /\ (forall xs ys, List.length (sample2d f2 xs ys) = List.length xs /\ Forall (fun row => List.length row = List.length ys) (sample2d f2 xs ys))
+  /\ (forall (g1 : Q -> B) (g2 : Q -> Q -> B) nx ax bx ny ay by_ i j, (0 <= i < nx)%Z -> (0 <= j < ny)%Z ->
+        nth_error (sample1d g1 (linspace nx ax bx)) (Z.to_nat i) = Some (g1 (linspace_at nx ax bx i))
+        /\ exists row, nth_error (sample2d g2 (linspace nx ax bx) (linspace ny ay by_)) (Z.to_nat i) = Some row
+                       /\ nth_error row (Z.to_nat j) = Some (g2 (linspace_at nx ax bx i) (linspace_at ny ay by_ j))).
+Proof.
+  intros A B f3 f2 f1.
+  split; [intros; apply sample_points_index; assumption |].
+  split; [intros; apply sample2d_points_index; assumption |].
+  split; [intros; apply sample_points_length |].
+  split; [intros; apply sample1d_index; assumption |].
+  split; [intros; apply sample2d_shape |].
+  intros g1 g2 nx ax bx ny ay by_ i j Hi Hj. split; [apply sample1d_on_linspace, Hi | apply sample2d_on_linspace; assumption].
+Qed.
+Print Assumptions C13_point_and_lower_dimensional_samplers.
+
+(* polygon mask as the implementation builds it (triangles combined): for EVERY vertex list and point, cutting the
+   ear (a, b, c) off changes the crossing test by exactly the crossing test of that triangle, and therefore the
+   crossing test of any polygon is the parity of the triangles of the fan from its first vertex *)
+Theorem C13_mask_is_parity_of_triangle_fan :
+  forall p a b c rest l,
+  point_in_polygon p (a :: b :: c :: rest) = xorb (point_in_polygon p [a; b; c]) (point_in_polygon p (a :: c :: rest))
+  /\ point_in_polygon p (a :: l) = fan_parity p a l.
+Proof. intros; split; [apply pip_ear | apply pip_fan]. Qed.
+Print Assumptions C13_mask_is_parity_of_triangle_fan.
 
 (* polygon mask: for every vertex list and every point the even-odd crossing test is unchanged by starting
    at another vertex, by reversing the orientation, and by translating polygon and point together *)
@@ -285,16 +375,183 @@ Proof.
 Qed.
 Print Assumptions C13_mask_independent_of_vertex_order.
 
+(* polygon mask = point-in-polygon, FULL for triangles (the polygons the implementation's mesh is made of): for every
+   triangle of either orientation and every point off the three edge lines, the crossing test is 1 exactly when the
+   point is strictly inside (orient = twice the signed area; all three of one sign = inside) *)
+Theorem C13_mask_triangle_is_point_in_triangle :
+  forall a b c p,
+  let oab := orient a b p in let obc := orient b c p in let oca := orient c a p in
+  (0 < oab -> 0 < obc -> 0 < oca -> point_in_polygon p [a; b; c] = true)
+  /\ (oab < 0 -> obc < 0 -> oca < 0 -> point_in_polygon p [a; b; c] = true)
+  /\ (~ oab == 0 -> ~ obc == 0 -> ~ oca == 0 ->
+      (0 < oab + obc + oca -> ~ (0 < oab /\ 0 < obc /\ 0 < oca) -> point_in_polygon p [a; b; c] = false)
+      /\ (oab + obc + oca < 0 -> ~ (oab < 0 /\ obc < 0 /\ oca < 0) -> point_in_polygon p [a; b; c] = false)).
+Proof.
+  intros a b c p oab obc oca.
+  split; [apply pip_triangle_inside |]. split; [apply pip_triangle_inside_cw |].
+  intros N1 N2 N3. split; intros HA NI; [apply pip_triangle_outside | apply pip_triangle_outside_cw]; assumption.
+Qed.
+Print Assumptions C13_mask_triangle_is_point_in_triangle.
+
 (* PARTIAL.  The full statement is: for every simple polygon the crossing test equals membership of the
    polygon's interior.  Proved: for every axis-aligned rectangle and every position of the point (inside,
    outside, level with an edge, on the boundary: closed on the low sides, open on the high sides).
-   Missing: the general Jordan-curve argument for arbitrary simple polygons (not attempted); general
-   polygons are covered by the order-independence theorem above and by the correspondence. *)
+   Narrowed since: C13_mask_triangle_is_point_in_triangle proves it for ALL triangles, and
+   C13_mask_is_parity_of_triangle_fan proves that the crossing test of ANY polygon is the parity of the triangles of a
+   fan (and changes by exactly one triangle when an ear is cut off).  What remains unproved is purely geometric: that
+   for a simple polygon a point of the interior lies in an odd number of fan triangles (equivalently that the ears
+   cut by the triangulation have disjoint interiors covering the polygon) - the Jordan-curve / triangulation
+   theorem, not attempted.  General polygons are covered by the order-independence theorem and the correspondence. *)
 Theorem C13_mask_is_point_in_polygon_partial :
   forall x0 y0 x1 y1 px py, x0 < x1 -> y0 < y1 ->
   point_in_polygon (px, py) (rectangle x0 y0 x1 y1) = true <-> (x0 <= px < x1 /\ y0 <= py < y1).
 Proof. exact pip_rectangle. Qed.
 Print Assumptions C13_mask_is_point_in_polygon_partial.
+
+(* the routing table (Model/C13_Table.v source_table; regenerated from the current .pyx sources on every run and
+   checked equal by the kernel in coq/Gen/C13/Tie.v): for every carrier, order test, remainder / hypot / atan2
+   operation, argument, attribute value and axis, the arguments each class of the anchored files hands to its wrapped
+   function are those of the model function of Model/C13_Wrappers.v, and the post-processing of the returned value is
+   the stated one (none / output clamp / outer function / rotation about z by atan2(y, x) in degrees) *)
+Theorem C13_routing_table_means_model :
+  forall (A : Type) (ltb : A -> A -> bool) (rem : A -> A -> A) (hypot atan2 : A -> A -> A) (deg : A -> A)
+         (arg : Z -> A) (attr : String.string -> A) (axis : Z) (shape : Z -> Z),
+  let ro := routed_of ltb rem hypot atan2 deg arg attr axis shape in
+  let x := arg 0%Z in let y := arg 1%Z in let z := arg 2%Z in
+  ro "Swizzle2D"%string = swizzle2 r2 x y
+  /\ ro "Swizzle3D"%string = swizzle3 (shape 0%Z) (shape 1%Z) (shape 2%Z) r3 x y z
+  /\ ro "Slice2D"%string = slice2 axis (attr "value"%string) r2 x
+  /\ ro "Slice3D"%string = slice3 axis (attr "value"%string) r3 x y
+  /\ ro "ClampInput3D"%string = clamp_in3 ltb (attr "_xmin"%string) (attr "_xmax"%string) (attr "_ymin"%string) (attr "_ymax"%string)
+                                           (attr "_zmin"%string) (attr "_zmax"%string) r3 x y z
+  /\ ro "IsoMapper3D"%string = iso3 (fun l : list A => l) r3 x y z
+  /\ ro "PeriodicTransform3D"%string = r3 (rem x (attr "period_x"%string)) (rem y (attr "period_y"%string)) (rem z (attr "period_z"%string))
+  /\ ro "VectorPeriodicTransform3D"%string = ro "PeriodicTransform3D"%string
+  /\ ro "VectorAxisymmetricMapper"%string = r2 (hypot x y) z
+  /\ ro "VectorCylindricalTransform"%string = r3 (hypot x y) (atan2 y x) z
+  /\ post_of axis (entry "VectorCylindricalTransform"%string) = PRotZ (RDeg (RAtan2 (RArg 1) (RArg 0)))
+  /\ post_of axis (entry "ClampOutput3D"%string) = PClampOut (RAttr "_min"%string) (RAttr "_max"%string).
+Proof.
+  intros A ltb rem hypot atan2 deg arg attr axis shape ro x y z. repeat split; reflexivity.
+Qed.
+Print Assumptions C13_routing_table_means_model.
+
+(* the loop nests of samplers.pyx (Model/C13_Table.v sampler_table; regenerated from the current source on every run
+   and checked equal by the kernel): executing the loop nest of a three-dimensional range / grid sampler writes, under
+   the index [i; j; k], the function at (x_i, y_j, z_k), for every index triple inside the shape and nothing else; a
+   point sampler writes under [i] the function at the i-th point; and the descriptors of the table have exactly these
+   loop shapes (vector samplers store the components x, y, z under the last index 0, 1, 2) *)
+Theorem C13_sampler_loops_refine_specification :
+  (forall (A B : Type) (d : sdesc) (f : list A -> B) xs ys zs dflt key val,
+     sd_bounds d = [0; 1; 2]%nat -> sd_store d = [0; 1; 2]%nat -> sd_args d = [(0, 0); (1, 1); (2, 2)]%nat ->
+     (In (key, val) (run_desc d f [xs; ys; zs] dflt) <->
+      exists i j k, (i < List.length xs)%nat /\ (j < List.length ys)%nat /\ (k < List.length zs)%nat
+                    /\ key = [i; j; k] /\ val = f [nth i xs dflt; nth j ys dflt; nth k zs dflt]))
+  /\ (forall (A B : Type) (d : sdesc) (f : list A -> B) xs ys zs dflt key val,
+     sd_bounds d = [0]%nat -> sd_store d = [0]%nat -> sd_args d = [(0, 0); (1, 0); (2, 0)]%nat ->
+     (In (key, val) (run_desc d f [xs; ys; zs] dflt) <->
+      exists i, (i < List.length xs)%nat /\ key = [i] /\ val = f [nth i xs dflt; nth i ys dflt; nth i zs dflt]))
+  /\ Forall (fun n => match lookup_s n sampler_table with
+                      | Some d => sd_bounds d = [0; 1; 2]%nat /\ sd_store d = [0; 1; 2]%nat /\ sd_args d = [(0, 0); (1, 1); (2, 2)]%nat
+                      | None => False end)
+            ["sample3d"; "sample3d_grid"; "samplevector3d"; "samplevector3d_grid"]%string
+  /\ Forall (fun n => match lookup_s n sampler_table with
+                      | Some d => sd_bounds d = [0]%nat /\ sd_store d = [0]%nat /\ sd_args d = [(0, 0); (1, 0); (2, 0)]%nat
+                      | None => False end)
+            ["sample3d_points"; "samplevector3d_points"]%string
+  /\ (forall (A B : Type) (d : sdesc) (g : A -> A -> A -> B) xs ys zs dflt key val,
+     sd_bounds d = [0; 1; 2]%nat -> sd_store d = [0; 1; 2]%nat -> sd_args d = [(0, 0); (1, 1); (2, 2)]%nat ->
+     In (key, val) (run_desc d (fun l => g (nth 0 l dflt) (nth 1 l dflt) (nth 2 l dflt)) [xs; ys; zs] dflt) ->
+     exists i j k plane row, key = [i; j; k] /\ nth_error (sample3d g xs ys zs) i = Some plane
+                             /\ nth_error plane j = Some row /\ nth_error row k = Some val).
+Proof.
+  split; [intros A B d f xs ys zs dflt key val; apply (run_desc_3d false) |].
+  split; [intros A B d f xs ys zs dflt key val; apply run_desc_points3 |].
+  split; [exact (proj1 sampler_table_shapes) |]. split; [exact (proj1 (proj2 sampler_table_shapes)) |].
+  intros A B d g xs ys zs dflt key val. apply run_desc_is_sample3d.
+Qed.
+Print Assumptions C13_sampler_loops_refine_specification.
+
+(* VectorCylindricalTransform made total the same way: the same rotation (cos, sin) as for the axisymmetric mapper, so
+   the length of the wrapped function's vector at (r, atan2(y, x), z) is preserved for EVERY (x, y) *)
+Theorem C13_vector_cylindrical_rotation_everywhere :
+  forall (sqrtQ : Q -> Q) (atan2Q : Q -> Q -> Q), (forall s, 0 <= s -> 0 <= sqrtQ s /\ sqrtQ s * sqrtQ s == s) ->
+  forall (f : Q -> Q -> Q -> vec) xneg x y z,
+  let r := radius sqrtQ x y in
+  vector_cylindrical_total sqrtQ atan2Q xneg f x y z
+  = rotz (fst (toroidal_cs xneg x y r)) (snd (toroidal_cs xneg x y r)) (f r (atan2Q y x) z)
+  /\ dot (vector_cylindrical_total sqrtQ atan2Q xneg f x y z) (vector_cylindrical_total sqrtQ atan2Q xneg f x y z)
+     == dot (f r (atan2Q y x) z) (f r (atan2Q y x) z).
+Proof.
+  intros sqrtQ atan2Q H f xneg x y z r. split; [reflexivity |].
+  unfold vector_cylindrical_total. apply rotz_dot. apply (toroidal_cs_unit sqrtQ H xneg x y).
+Qed.
+Print Assumptions C13_vector_cylindrical_rotation_everywhere.
+
+(* the program of periodic.pxd (Model/C13_Table.v source_remainder; regenerated from the current periodic.pxd on every run
+   and checked equal by the kernel): run on binary64 it IS remainder_F, for every pair of doubles; run in exact arithmetic
+   with the sum rounded by any rnd it IS remainder_rounded; hence, for any round-to-nearest rnd over a set of
+   representable numbers containing 0 and the period, the value the program returns lies in [0, period).
+   (PrimFloat primitives appear because the first clause computes on binary64.) *)
+Theorem C13_periodic_source_program_means_models :
+  (forall x1 x2 : float,
+     run_remainder zero fmod_F PrimFloat.add toward_zero_F PrimFloat.eqb PrimFloat.ltb source_remainder x1 x2 = Some (remainder_F x1 x2))
+  /\ (forall (rnd : Q -> Q) (pred_p x p : Q),
+     run_remainder 0 fmod_Q (fun a b => rnd (a + b)) (fun _ => pred_p) Qeq_bool Qltb source_remainder x p
+     = Some (remainder_rounded rnd pred_p x p))
+  /\ (forall (repr : Q -> Prop) (rnd : Q -> Q), (forall q f, repr f -> Qabs (rnd q - q) <= Qabs (f - q)) ->
+     forall p pred_p, 0 < p -> repr 0 -> repr p -> 0 <= pred_p /\ pred_p < p ->
+     forall x, exists r, run_remainder 0 fmod_Q (fun a b => rnd (a + b)) (fun _ => pred_p) Qeq_bool Qltb source_remainder x p = Some r
+                         /\ 0 <= r /\ r < p).
+Proof.
+  split; [exact source_remainder_is_remainder_F |]. split; [exact source_remainder_is_remainder_rounded |].
+  intros repr rnd Hn p pred_p Hp R0 Rp Hpred x. exists (remainder_rounded rnd pred_p x p).
+  split; [apply source_remainder_is_remainder_rounded |]. exact (remainder_nearest_range repr rnd Hn p pred_p Hp R0 Rp Hpred x).
+Qed.
+Print Assumptions C13_periodic_source_program_means_models.
+
+(* the argument checks of every constructor (Model/C13_Table.v ctor_table; regenerated from the __init__ methods of the
+   current sources on every run and checked equal by the kernel): evaluated in source order (first check that fires decides)
+   they ARE the validation policies the correspondence compares with the real exceptions, for every value of the
+   arguments (numeric arguments as extended reals, wrapped objects callable) *)
+Theorem C13_constructor_checks_mean_policies :
+  forall (num : String.string -> option Q) (is_tuple : bool) (shape : list Z) (axis : axis_sel),
+  let ev := fun name => ctor_eval num is_tuple shape axis (lookup_c name ctor_table) in
+  (forall p, num "period"%string = Some p ->
+     ev "PeriodicTransform1D"%string = period1_validate p /\ ev "VectorPeriodicTransform1D"%string = period1_validate p)
+  /\ (forall px py pz, num "period_x"%string = Some px -> num "period_y"%string = Some py -> num "period_z"%string = Some pz ->
+     ev "PeriodicTransform3D"%string = periodn_validate [px; py; pz] /\ ev "VectorPeriodicTransform3D"%string = periodn_validate [px; py; pz]
+     /\ ev "PeriodicTransform2D"%string = periodn_validate [px; py] /\ ev "VectorPeriodicTransform2D"%string = periodn_validate [px; py])
+  /\ (ev "ClampOutput1D"%string = clamp_validate (num "min"%string) (num "max"%string)
+      /\ ev "ClampOutput2D"%string = clamp_validate (num "min"%string) (num "max"%string)
+      /\ ev "ClampOutput3D"%string = clamp_validate (num "min"%string) (num "max"%string)
+      /\ ev "ClampInput1D"%string = clamp_validate (num "xmin"%string) (num "xmax"%string)
+      /\ ev "ClampInput2D"%string = first_err (clamp_validate (num "xmin"%string) (num "xmax"%string)) (clamp_validate (num "ymin"%string) (num "ymax"%string))
+      /\ ev "ClampInput3D"%string = first_err (clamp_validate (num "xmin"%string) (num "xmax"%string))
+                                      (first_err (clamp_validate (num "ymin"%string) (num "ymax"%string)) (clamp_validate (num "zmin"%string) (num "zmax"%string))))
+  /\ ev "Swizzle3D"%string = swizzle3_validate is_tuple shape
+  /\ ev "Slice2D"%string = match slice_validate 2 axis with inl e => Some e | inr _ => None end
+  /\ ev "Slice3D"%string = match slice_validate 3 axis with inl e => Some e | inr _ => None end.
+Proof.
+  intros num is_tuple shape axis ev.
+  split; [intros p H; exact (ctor_period1 num is_tuple shape axis p H) |].
+  split; [intros px py pz Hx Hy Hz; exact (ctor_period3 num is_tuple shape axis px py pz Hx Hy Hz) |].
+  split; [exact (ctor_clamp num is_tuple shape axis) |].
+  split; [exact (ctor_swizzle3 num is_tuple shape axis) |].
+  exact (ctor_slice num is_tuple shape axis).
+Qed.
+Print Assumptions C13_constructor_checks_mean_policies.
+
+(* the range checks recorded in the sampler descriptors (len, order, count, in source order), evaluated on the range
+   arguments, are range_validate: a one-range sampler raises exactly what range_validate says, a two- / three-range
+   sampler is accepted exactly when every range is *)
+Theorem C13_sampler_range_checks_mean_policy :
+  (forall r, checks_eval [r] (sd_checks (range_desc 1 false)) = rv r)
+  /\ (forall r0 r1 r2 vector,
+       (checks_eval [r0; r1; r2] (sd_checks (range_desc 3 vector)) = None <-> (rv r0 = None /\ rv r1 = None /\ rv r2 = None))
+       /\ (checks_eval [r0; r1] (sd_checks (range_desc 2 vector)) = None <-> (rv r0 = None /\ rv r1 = None))).
+Proof. split; [exact sampler_checks_1d | exact sampler_checks_3d]. Qed.
+Print Assumptions C13_sampler_range_checks_mean_policy.
 
 (* non-vacuity: the hypotheses used above are satisfiable (a period, a rounding, a sample count, a
    rectangle, an off-axis point with an exact square root, valid selectors) *)
